@@ -68,7 +68,7 @@ func c19GroupOf(q *UpQuery) int {
 }
 
 func TestVfC19Prefetch(t *testing.T) {
-	st := vfkit.Stats("TestVfC19Prefetch", "runs of 20-80 independent names: TTL in {6,8,10,12} s, entries primed for 1-3 client groups, then a burst of 1-120 concurrent hits per group (from 1, 2 or 4 client addresses of the group) at a drawn instant inside the last quarter of the lifetime; the upstream holds the refresh reply until all burst responses are collected (or 3 s), then the refresh ends as success (new TTL 30 / 60 s, or 1 / 2 s, i.e. less than what is left of the old entry) / success answered only after the old entry expired / NOERROR-NODATA / NXDOMAIN / SERVFAIL / REFUSED / garbage / silence / connection closed, over a UDP or a TCP upstream (where transport errors are immediate), one name in three at a proxy whose cache is the harness's RESP3 store only; oracles: every hit of the burst is answered from the old entry while the refresh is held, exactly one refresh per group is started and in flight, after a successful refresh later hits carry the new fetch (without a further upstream query when the reply came after the old expiry), after a failed or negative refresh the old entry is served until its expiry and not 2 s beyond, and a further hit in the window starts a new refresh (the reservation ended with the refresh); non-trivial = burst >= 2 inside the window")
+	st := vfkit.Stats("TestVfC19Prefetch", "runs of 20-80 independent names: TTL in {6,8,10,12} s, entries primed for 1-3 client groups, then a burst of 1-120 concurrent hits per group (from 1, 2 or 4 client addresses of the group) at a drawn instant inside the last quarter of the lifetime (in every other run the primings are staggered so that all bursts fall on one instant and every refresh is held until all bursts of the run are answered: 40-160 refreshes in flight at once); the upstream holds the refresh reply until all burst responses are collected (or 3 s), then the refresh ends as success (new TTL 30 / 60 s, or 1 / 2 s, i.e. less than what is left of the old entry) / success answered only after the old entry expired / NOERROR-NODATA / NXDOMAIN / SERVFAIL / REFUSED / garbage / silence / connection closed, over a UDP or a TCP upstream (where transport errors are immediate), one name in three at a proxy whose cache is the harness's RESP3 store only; oracles: every hit of the burst is answered from the old entry while the refresh is held, exactly one refresh per group is started and in flight, after a successful refresh later hits carry the new fetch (without a further upstream query when the reply came after the old expiry), after a failed or negative refresh the old entry is served until its expiry and not 2 s beyond, and a further hit in the window starts a new refresh (the reservation ended with the refresh); non-trivial = burst >= 2 inside the window")
 	defer vfkit.Flush()
 	block := NextIPBlock()
 	var names sync.Map
@@ -176,7 +176,15 @@ func TestVfC19Prefetch(t *testing.T) {
 		runNo++
 		nNames := rapid.IntRange(20, 80).Draw(t, "nNames")
 		all := make([]*c19Name, nNames)
+		// "together": every name's burst falls on the same instant and every refresh reply is held until the bursts of ALL
+		// names have been answered - so there are as many refreshes in flight at once as there are (name, group) pairs, far
+		// more than any internal pool or limit of refresh workers would hold, and a hit that has to wait for a free one
+		// waits for the release that waits for it.
+		together := rapid.IntRange(0, 1).Draw(t, "burstsTogether") == 0
 		budget := 6000
+		if together {
+			budget = 1500
+		}
 		for i := range all {
 			n := &c19Name{label: fmt.Sprintf("r%dn%dp%d", runNo, i, os.Getpid()), gate: make(chan struct{})}
 			n.ttl = rapid.SampledFrom([]uint32{6, 8, 10, 12}).Draw(t, "ttl")
@@ -220,10 +228,31 @@ func TestVfC19Prefetch(t *testing.T) {
 		fail := func(format string, args ...any) { firstErr.CompareAndSwap(nil, fmt.Sprintf(format, args...)) }
 		var bursts2, relChecked atomic.Int32
 		var wg sync.WaitGroup
+		var pendingBursts atomic.Int32
+		pendingBursts.Store(int32(len(all)))
+		allAnswered := make(chan struct{})
+		var maxBurstAt time.Duration
+		for _, n := range all {
+			if n.burstAt > maxBurstAt {
+				maxBurstAt = n.burstAt
+			}
+		}
+		burstInstant := time.Now().Add(maxBurstAt + 500*time.Millisecond)
 		for _, n := range all {
 			wg.Add(1)
 			go func(n *c19Name) {
 				defer wg.Done()
+				var burstCounted atomic.Bool
+				burstDone := func() {
+					if !burstCounted.Swap(true) && pendingBursts.Add(-1) == 0 {
+						close(allAnswered)
+					}
+				}
+				defer burstDone()
+				if together {
+					// prime so late that this name's burst (burstAt after priming) falls on the common instant
+					time.Sleep(time.Until(burstInstant.Add(-n.burstAt)))
+				}
 				defer func() {
 					if !n.gateOpen.Swap(true) {
 						close(n.gate)
@@ -381,6 +410,15 @@ func TestVfC19Prefetch(t *testing.T) {
 					startedBy[g] = n.heldBy[g].Load()
 				}
 				heldNow := n.held.Load()
+				// (the refreshes this burst started were counted above, while every refresh of the run is still held)
+				burstDone()
+				if together {
+					// hold this name's refresh until every name's burst has been answered (or this name's own 3 s are over)
+					select {
+					case <-allAnswered:
+					case <-time.After(time.Until(deadline)):
+					}
+				}
 				if n.outcome == "slow-success" {
 					// the upstream answers the refresh only after the old entry has expired (but well inside the 6 s an
 					// upstream exchange may take): the refresh is still a successful one
@@ -568,6 +606,9 @@ func TestVfC19Prefetch(t *testing.T) {
 		}
 		for k, v := range outcomes {
 			st.Class("outcome="+k, v)
+		}
+		if together {
+			st.Class("runs-with-all-bursts-together", 1)
 		}
 		st.Class("names", nNames)
 		st.Class("bursts>=2", int(bursts2.Load()))
